@@ -308,9 +308,20 @@ def glue_theorems(pid):
     return [t for t in _theorems_in(os.path.join(LEAN, 'Proofs', 'Glue.lean')) if re.match(GLUE[pid], t)]
 
 
+# further property files of the same property (written in later rounds): every theorem in them is an obligation of that property
+EXTRA_FILES = {'C18': ['C18S'], 'C03': ['C03Q'], 'C13': ['C13B'], 'C16': ['C16B']}
+
+
+def extra_modules(pid):
+    return [m for m in EXTRA_FILES.get(pid, []) if os.path.exists(os.path.join(LEAN, 'Proofs', m + '.lean'))]
+
+
 def property_theorems(pid):
-    """all theorems stated in Proofs/<pid>.lean (helper lemmas live elsewhere) + the glue theorems that complete this property"""
-    return _theorems_in(os.path.join(LEAN, 'Proofs', pid + '.lean')) + glue_theorems(pid)
+    """all theorems stated in Proofs/<pid>.lean (helper lemmas live elsewhere), in its extra property files, + the glue theorems that complete this property"""
+    out = _theorems_in(os.path.join(LEAN, 'Proofs', pid + '.lean'))
+    for m in extra_modules(pid):
+        out += _theorems_in(os.path.join(LEAN, 'Proofs', m + '.lean'))
+    return out + glue_theorems(pid)
 
 
 FORBIDDEN = re.compile(r'\bsorry\b|\badmit\b|^\s*axiom\s|native_decide|bv_decide|implemented_by|\bunsafe\s|maxHeartbeats\s+0\b', re.M)
@@ -331,7 +342,7 @@ def source_scan(files):
 
 def proof_module_files(pid):
     """transitive closure of Proofs.* / Kurbo.* imports of Proofs/<pid>.lean"""
-    seen, todo = set(), [f'Proofs.{pid}']
+    seen, todo = set(), [f'Proofs.{pid}'] + [f'Proofs.{m}' for m in extra_modules(pid)] + (['Proofs.Glue'] if glue_theorems(pid) else [])
     while todo:
         m = todo.pop()
         if m in seen:
@@ -351,7 +362,7 @@ def audit_axioms(pid, theorems):
         return {}, ''
     path = os.path.join(LEAN, '.lake', f'audit_{pid}.lean')
     with open(path, 'w') as f:
-        f.write(f'import Proofs.{pid}\n' + ('import Proofs.Glue\n' if glue_theorems(pid) else '') + 'open Kurbo\n')
+        f.write(f'import Proofs.{pid}\n' + ''.join(f'import Proofs.{m}\n' for m in extra_modules(pid)) + ('import Proofs.Glue\n' if glue_theorems(pid) else '') + 'open Kurbo\n')
         for t in theorems:
             f.write(f'#print axioms Kurbo.{t}\n' if not t.startswith('Kurbo.') else f'#print axioms {t}\n')
     rc, out = sh(['lake', 'env', 'lean', path], cwd=LEAN, timeout=1200)
